@@ -15,14 +15,14 @@ use std::{
     task::Poll,
 };
 
-use cucumber::{Cucumber, Parser, Writer, cli, runner, writer};
+use cucumber::{Cucumber, Writer, cli, runner, writer};
 use serde_json::{Value, json};
 use vlab::{
     engine::{self, CaseOut, Ctx, Input, Property, Tier, Violation},
     lab::{
         self, Phase, W,
         case::{Profile, gen_case},
-        driver::{self, EvKind, LabParser, RawEv, RunEnd, ScEv, Schedule},
+        driver::{self, EvKind, RawEv, RunEnd, ScEv, Schedule},
         model::{self, Attempt},
     },
     tape::{Tape, hash_str},
@@ -32,16 +32,7 @@ fn v(sig: &str, msg: String) -> Violation {
     Violation::new(format!("C20/{sig}"), msg)
 }
 
-struct PW(LabParser);
-
-impl Parser<()> for PW {
-    type Cli = cli::Empty;
-    type Output = LabParser;
-
-    fn parse(self, (): (), _: cli::Empty) -> LabParser {
-        self.0
-    }
-}
+use vlab::lab::driver::PW;
 
 #[derive(Clone, Default)]
 struct QW(Rc<RefCell<VecDeque<RawEv>>>);
@@ -151,13 +142,17 @@ fn run_one(input: &Input, want_sample: bool) -> Value {
     let opts = cli::Opts::<cli::Empty, runner::basic::Cli, cli::Empty, cli::Empty> { re_filter: None, tags_filter: None, parser: cli::Empty, runner: driver::build_cli(&case), writer: cli::Empty, custom: cli::Empty };
     let warn_mode = vlab::tape::hash_str(&format!("{:?}", &input.a[..input.a.len().min(6)])) % 2 == 1;
     WARN_MODE.store(warn_mode, std::sync::atomic::Ordering::Relaxed);
-    let cuc = Cucumber::<W, _, (), _, _, cli::Empty>::custom(PW(parser), driver::build_runner(&case), queue.clone()).with_cli(opts);
+    let cuc = Cucumber::<W, _, (), _, _, cli::Empty>::custom(PW(Rc::new(RefCell::new(Some(parser)))), driver::build_runner(&case), queue.clone()).with_cli(opts);
     let cuc = if warn_mode {
         use tracing_subscriber::{Layer as _, filter::LevelFilter, fmt::format, layer::SubscriberExt as _};
         cuc.configure_and_init_tracing(format::DefaultFields::new(), format::Format::default(), |layer| tracing_subscriber::registry().with(LevelFilter::WARN.and_then(layer)))
     } else {
         cuc.init_tracing()
     };
+    // Every other case keeps a clone of the configured executor alive while the original runs (a
+    // base configuration shared by several runs): the tracing collector travels with the copy that
+    // is run, whoever else still holds a handle to it.
+    let spare = (vlab::tape::hash_str(&format!("{:?}", &input.a[..input.a.len().min(8)])) % 2 == 0).then(|| cuc.clone());
     let mut fut = Box::pin(cuc.run(()));
     let mut done = false;
     let mut tb = Tape::new(input.b.clone());
@@ -304,9 +299,13 @@ fn run_one(input: &Input, want_sample: bool) -> Value {
     }
     // the stream-level oracles of C03 (framing) and C07 (serial isolation) on this build
     if completed {
+        // ... and the per-attempt reference automaton of C02 (Log events are transparent to it)
+        viol.extend(m.violations.iter().cloned());
         viol.extend(lab::oracles::check_c03(&case, &log));
         viol.extend(lab::oracles::check_c07(&case, &log, &m));
     }
+    let spare_alive = spare.is_some();
+    drop(spare);
     let n_logs = log.events.iter().filter(|e| matches!(&e.k, EvKind::Sc { ev: ScEv::Log(_), .. })).count();
     let mut labels: Vec<&str> = vec![];
     if concurrent_logging {
@@ -320,6 +319,9 @@ fn run_one(input: &Input, want_sample: bool) -> Value {
     }
     if ambient.is_some() {
         labels.push("ambient_user_span");
+    }
+    if spare_alive {
+        labels.push("clone_of_the_executor_alive_during_the_run");
     }
     if warn_mode {
         labels.push("subscriber_filters_at_warn");
@@ -461,6 +463,7 @@ impl Property for LabT {
     }
     fn saved_id(&self) -> &'static str {
         match self.0 {
+            "C02" => "C02-tracing",
             "C03" => "C03-tracing",
             _ => "C07-tracing",
         }
@@ -497,6 +500,7 @@ fn main() {
     let seed: u64 = std::env::var("VERIF_SEED").ok().and_then(|s| s.parse().ok()).unwrap_or(0);
     let prop: &dyn Property = match args.get(2).map(String::as_str) {
         Some("C04") => &C04T,
+        Some("C02") => &LabT("C02"),
         Some("C03") => &LabT("C03"),
         Some("C07") => &LabT("C07"),
         _ => &C20,
